@@ -90,6 +90,9 @@ func (h *Heap) get(name string) string {
 	case 0:
 		res = fmt.Sprintf("%s!%d", name, h.id)
 		h.vc.declare(res, so)
+		if name != "clock" {
+			h.vc.closure(name, res, so, h.get("clock"))
+		}
 	case 1:
 		res = h.parents[0].h.get(name)
 	default:
@@ -120,6 +123,23 @@ func (h *Heap) get(name string) string {
 	return res
 }
 
+// closure: the heap is closed under the allocation clock: every reference (and every slice header)
+// stored in an incarnation of a heap variable points to something allocated before the incarnation's
+// birth clock. Stated for root and havoced incarnations; it is inherited by stores of existing values.
+func (vc *VC) closure(name, inc, so, clk string) {
+	switch so {
+	case "(Array Int Ref)":
+		vc.assume(fmt.Sprintf("(forall ((r Int)) (! (< (root (select %s r)) %s) :pattern ((select %s r))))", inc, clk, inc))
+	case "(Array Int Slice)":
+		vc.assume(fmt.Sprintf("(forall ((r Int)) (! (and (< (s_base (select %s r)) %s) (>= (s_base (select %s r)) 0) (>= (s_off (select %s r)) 0) (>= (s_len (select %s r)) 0) (>= (s_cap (select %s r)) (s_len (select %s r)))) :pattern ((select %s r))))", inc, clk, inc, inc, inc, inc, inc, inc))
+	case "(Array Int (Array Int Ref))":
+		if strings.HasPrefix(name, "E_") {
+			at := "at_" + strings.TrimPrefix(name, "E_")
+			vc.assume(fmt.Sprintf("(forall ((s Slice) (k Int)) (! (< (root (%s %s s k)) %s) :pattern ((%s %s s k))))", at, inc, clk, at, inc))
+		}
+	}
+}
+
 func mergeHeaps(vc *VC, ps []heapParent, noName bool) *Heap {
 	if len(ps) == 1 {
 		return ps[0].h
@@ -145,6 +165,7 @@ func (h *Heap) havoc(ms *ModSet, why string) *Heap {
 	vc.u.clockVar()
 	oldc := h.get("clock")
 	var n *Heap
+	var havoced [][2]string
 	if ms != nil && ms.all {
 		n = vc.rootHeap("havoc")
 		n.noName = h.noName
@@ -161,6 +182,7 @@ func (h *Heap) havoc(ms *ModSet, why string) *Heap {
 				}
 				c := vc.fresh(v+"!hv", so)
 				n.m[v] = Term{S: c, Sort: Sort(so)}
+				havoced = append(havoced, [2]string{v, c})
 				if ms.vars[v] == 1 {
 					old := h.get(v)
 					if strings.HasPrefix(v, "E_") || strings.HasPrefix(v, "MD_") || strings.HasPrefix(v, "MV_") {
@@ -188,6 +210,9 @@ func (h *Heap) havoc(ms *ModSet, why string) *Heap {
 		if v != "clock" {
 			n.births[v] = c
 		}
+	}
+	for _, hv := range havoced {
+		vc.closure(hv[0], hv[1], vc.u.heapSorts[hv[0]], c)
 	}
 	return n
 }
@@ -220,6 +245,7 @@ type Oblig struct {
 	Src     string // file:line
 	Props   []string
 	Cover   bool // must be SAT (vacuity guard)
+	Light   bool // cover obligation checked with one solver only
 	Auto    bool // candidate auto-invariant (Houdini)
 	AutoKey string
 	// results
@@ -315,7 +341,9 @@ func (vc *VC) oblig(kind, what, reach, cond, desc string, pos token.Pos) *Oblig 
 	}
 	vc.obligs = append(vc.obligs, ob)
 	// assert-then-assume
-	vc.assume(implies(reach, cond))
+	if kind != "cover" {
+		vc.assume(implies(reach, cond))
+	}
 	return ob
 }
 
